@@ -749,7 +749,12 @@ func TestC09Concurrent(t *testing.T) {
 		if withSub {
 			// a resumable subscription next to the publishers: its handler saves its position in the
 			// same store while other publishers append
-			if err := ebu.SubscribeWithReplay(context.Background(), bus, "c09-sub", func(ev) {}); err != nil {
+			// (every fifth event makes it publish a follow-up of its own, which is recorded like any publish)
+			if err := ebu.SubscribeWithReplay(context.Background(), bus, "c09-sub", func(e ev) {
+				if e.ID%5 == 0 && e.S == "c" {
+					ebu.Publish(bus, ev{ID: 1000000 + e.ID, S: "follow-up"})
+				}
+			}); err != nil {
 				t.Fatalf("SubscribeWithReplay: %v", err)
 			}
 		}
@@ -803,8 +808,18 @@ func TestC09Concurrent(t *testing.T) {
 			all = append(all, evs...)
 			from = next
 		}
-		if len(all) != P*E {
-			run.Violation(fam+":record-count", fmt.Sprintf("%d concurrent publishes on %s produced %d records", P*E, kind, len(all)), witness)
+		wantRecords := P * E
+		if withSub {
+			for p := 0; p < P; p++ {
+				for k := 0; k < E; k++ {
+					if (p*1000+k)%5 == 0 {
+						wantRecords++ // its follow-up
+					}
+				}
+			}
+		}
+		if len(all) != wantRecords {
+			run.Violation(fam+":record-count", fmt.Sprintf("%d concurrent publishes on %s (follow-ups published by the resumable subscription's handler included) produced %d records", wantRecords, kind, len(all)), witness)
 		}
 		ids := map[int]int{}
 		for _, e := range all {
